@@ -2,7 +2,7 @@
    Statements only; proofs in Fs/FsProofsCache.v over the state machine Fs/Cache.v
    (edits, exclusion changes, cache replacement / tampering / damage, scans) with
    the analysis and the file-name -> language map as oracles and md5 injective. *)
-From Verif Require Import Base Codebase Exclude GenScan FsScan Cache FsProofsCache.
+From Verif Require Import Base Codebase Exclude GenScan FsScan Cache FsProofsCache GenCompare TieProofs.
 Open Scope Z_scope.
 
 Section C09.
@@ -45,9 +45,21 @@ End C09.
 Theorem C09_version_guard : forall v es, v <> tool_version -> usable_cache (CDoc v es) = None.
 Proof. exact FsProofsCache.C09_version_guard. Qed.
 
+(* the reuse decision of the model is the condition _scan_file states (regenerated from Scanner.py on this run):
+   a cached entry is reused exactly when there is one for the path and its checksum equals the file's *)
+Theorem C09_reuse_condition_tied : forall (supported : pystr -> option pystr) (analyze : pystr -> Z -> analysis) ca f,
+  (forall ck res, cache_get ca (fst f) = Some (ck, res) ->
+     scan_one supported analyze (Some ca) f =
+     if reuse_cached_entry true ck (snd f) then (mkSentry (fst f) (snd f) res, false)
+     else (mkSentry (fst f) (snd f) (analyze (match supported (last (fst f) []) with Some l => l | None => [] end) (snd f)), true)) /\
+  (cache_get ca (fst f) = None -> reuse_cached_entry false 0 (snd f) = false /\
+     snd (scan_one supported analyze (Some ca) f) = true).
+Proof. intros. split; [intros ck res H; exact (tie_scan_one supported analyze ca f ck res H)|exact (tie_scan_one_no_entry supported analyze ca f)]. Qed.
+
 Print Assumptions C09_equal.
 Print Assumptions C09_equal_all.
 Print Assumptions C09_reuse_only_unchanged.
 Print Assumptions C09_other_version.
 Print Assumptions C09_invariant.
 Print Assumptions C09_version_guard.
+Print Assumptions C09_reuse_condition_tied.
